@@ -10,9 +10,17 @@ C05 / C15 / C17 driver (commit pipeline under schedules).  Lines:
   drain                                              lowest-index thread at a yield point first, until all calls returned
 -/
 
+/-- one `commit()` call as the driver sees it -/
+structure CallRec where
+  thread : Nat
+  start : Nat
+  keys : List Nat
+  first : Option Nat := none
+
 structure C05State where
   s : PState := {}
   n : Nat := 0
+  calls : List CallRec := []       -- in begin order
 
 def sortParts (l : List (Nat × Nat × Bool)) : List (Nat × Nat × Bool) :=
   l.foldr (fun x acc =>
@@ -45,12 +53,38 @@ def resultsStr (s : PState) : String :=
     | some t => s!"{i}:{",".intercalate (t.results.reverse.map CRes.toStr)}"
     | none => s!"{i}:"))
 
-partial def drainLoop (s : PState) (fuel : Nat) : PState :=
-  if fuel == 0 || s.panicked then s else
-  match (List.range s.threads.length).find? (fun i =>
-      match s.threads[i]? with | some t => isAtGate t.pc | none => false) with
-  | some i => drainLoop (s.stepThread i).wakeAll (fuel - 1)
-  | none => s
+/-- the last call of thread `i` without a first sequence number gets `f` -/
+def setFirst (calls : List CallRec) (i f : Nat) : List CallRec :=
+  let idx := (List.range calls.length).reverse.find? (fun j =>
+    match calls[j]? with | some c => c.thread == i && c.first.isNone | none => false)
+  match idx with
+  | some j => calls.modify j (fun c => { c with first := some f })
+  | none => calls
+
+partial def drainLoop (st : C05State) (fuel : Nat) : C05State :=
+  if fuel == 0 || st.s.panicked then st else
+  match (List.range st.s.threads.length).find? (fun i =>
+      match st.s.threads[i]? with | some t => isAtGate t.pc | none => false) with
+  | some i =>
+    let s' := (st.s.stepThread i).wakeAll
+    let st := if s'.logSeq > st.s.logSeq then { st with calls := setFirst st.calls i st.s.logSeq } else st
+    drainLoop { st with s := s' } (fuel - 1)
+  | none => st
+
+/-- commit log in begin order: start/keys/first/result -/
+def logStr (st : C05State) : String :=
+  let perThread (i : Nat) : List CRes := match st.s.threads[i]? with | some t => t.results.reverse | none => []
+  let rec go (calls : List CallRec) (seen : List (Nat × Nat)) (acc : List String) : List String :=
+    match calls with
+    | [] => acc.reverse
+    | c :: rest =>
+      let k := ((seen.find? (fun p => p.1 == c.thread)).map (·.2)).getD 0
+      let res := match (perThread c.thread)[k]? with | some r => r.toStr | none => "-"
+      let f := match c.first with | some f => toString f | none => "-"
+      let line := s!"{c.start}/{".".intercalate (c.keys.map toString)}/{f}/{res}"
+      go rest ((c.thread, k + 1) :: seen.filter (fun p => p.1 != c.thread)) (line :: acc)
+  let ls := go st.calls [] []
+  if ls.isEmpty then "-" else ";".intercalate ls
 
 def c05Step (st : C05State) (ws : List String) : C05State × String × String :=
   match ws with
@@ -67,7 +101,8 @@ def c05Step (st : C05State) (ws : List String) : C05State × String × String :=
         if t.pc == .ready && !st.s.panicked then
           let req : CommitReq := { keys := keys, failWal := fw == "1", failApplyAt := fa.toNat? }
           let s' := st.s.begin i req
-          ({ st with s := s' }, s!"start={st.s.visible}", "*")
+          ({ st with s := s', calls := st.calls ++ [{ thread := i, start := st.s.visible, keys := keys }] },
+            s!"start={st.s.visible}", "*")
         else (st, "busy", "*")
       | none => (st, "bad-op", "bad-op")
     | _, _ => (st, "bad-op", "bad-op")
@@ -79,6 +114,7 @@ def c05Step (st : C05State) (ws : List String) : C05State × String × String :=
         let s' := (st.s.stepThread i).wakeAll
         if s'.panicked then ({ st with s := s' }, "at=idle vis=" ++ toString s'.visible ++ " res=PANIC", "nopanic\tqueue-overflow-after-failed-commits")
         else
+        let st := if s'.logSeq > st.s.logSeq then { st with calls := setFirst st.calls i st.s.logSeq } else st
         let t1 := (s'.threads[i]?).getD t0
         -- a result is reported with the step only when the call returned without reaching the
         -- completion wait (conflict / retry / WAL error / apply error); others are reported by `drain`
@@ -94,12 +130,13 @@ def c05Step (st : C05State) (ws : List String) : C05State × String × String :=
     let (obs, ok) := probeObs st.s
     (st, obs, "atomic" ++ (if ok then "" else "\tfailed-commit-partially-visible"))
   | ["drain"] =>
-    let s' := drainLoop st.s 10000
-    if s'.panicked then ({ st with s := s' }, "PANIC", "nopanic\tqueue-overflow-after-failed-commits")
+    let st' := drainLoop st 10000
+    let s' := st'.s
+    if s'.panicked then (st', "PANIC", "nopanic\tqueue-overflow-after-failed-commits")
     else
     let stuck := s'.threads.any (fun t => t.pc != .ready)
-    let out := (if stuck then "HANG " else "") ++ s!"vis={s'.visible} res={resultsStr s'}"
-    ({ st with s := s' }, out, s!"vis>={st.s.visible} nohang")
+    let out := (if stuck then "HANG " else "") ++ s!"vis={s'.visible} res={resultsStr s'} log={logStr st'}"
+    (st', out, s!"vis>={st.s.visible} nohang fcw")
   | _ => (st, "bad-op", "bad-op")
 
 def c05Driver : LineDriver := { σ := C05State, init := {}, step := c05Step }
